@@ -123,12 +123,70 @@ def case(job):
     return out
 
 
+PROBE_KINDS = ("comment", "assert", "assert2", "subname", "nested-comment")
+
+
+def probe(job):
+    """one annotation construct x one adversarial text x one version: the instruction stream equals that of the unannotated program"""
+    kind, text, version = job
+    from vf.core import use_repo
+    use_repo()
+    import pyteal as pt
+    out = {"job": list(job), "problem": None, "ran": 0}
+
+    def build(annotated):
+        x = pt.ScratchVar(pt.TealType.uint64)
+        cond = pt.Txn.fee() < pt.Int(5000)
+        if kind == "comment":
+            body = pt.Comment(text, x.store(pt.Int(3))) if annotated else x.store(pt.Int(3))
+            return pt.Seq(body, pt.Return(x.load()))
+        if kind == "nested-comment":
+            inner = x.store(pt.Int(3))
+            body = pt.Comment(text, pt.Comment(text, inner)) if annotated else inner
+            return pt.Seq(pt.If(cond).Then(body).Else(x.store(pt.Int(4))), pt.Return(x.load()))
+        if kind == "assert":
+            return pt.Seq(pt.Assert(cond, comment=text) if annotated else pt.Assert(cond), pt.Return(pt.Int(1)))
+        if kind == "assert2":
+            a = pt.Assert(cond, pt.Txn.fee() > pt.Int(0), comment=text) if annotated else pt.Assert(cond, pt.Txn.fee() > pt.Int(0))
+            return pt.Seq(a, pt.Return(pt.Int(1)))
+        if kind == "subname":
+            def f(a):
+                return a + pt.Int(1)
+            f.__name__ = text if annotated else "f"
+            sub = pt.Subroutine(pt.TealType.uint64)(f)
+            return pt.Return(sub(pt.Int(2)))
+        raise ValueError(kind)
+    try:
+        try:
+            t0 = pt.compileTeal(build(False), pt.Mode.Application, version=version)
+        except (pt.TealInputError, pt.TealCompileError, pt.TealInternalError, pt.TealTypeError):
+            return out      # the construct itself is not available at this version
+        try:
+            t1 = pt.compileTeal(build(True), pt.Mode.Application, version=version)
+        except (pt.TealInputError, pt.TealCompileError, pt.TealInternalError, pt.TealTypeError):
+            return out      # an annotation text may be rejected
+        out["ran"] = 1
+        try:
+            n0, n1 = normalise(t0), normalise(t1)
+        except Exception as e:
+            out["problem"] = f"annotated program does not lex as TEAL: {e}"
+            out["teal"] = t1
+            return out
+        if n0 != n1:
+            i = next((k for k, (a, b) in enumerate(zip(n0, n1)) if a != b), min(len(n0), len(n1)))
+            out["problem"] = f"instruction streams differ at #{i}: plain {n0[i:i + 2]} vs annotated {n1[i:i + 2]} (lengths {len(n0)}/{len(n1)})"
+            out["teal"] = t1
+    except Exception as e:
+        out["problem"] = f"exception {type(e).__name__}: {str(e)[:200]}"
+    return out
+
+
 def run(report: Report, tier, seed):
     report.trust("fragcheck spec terms for Comment / Nonce / Pragma / Assert(comment) (annotation = child's meaning)", "spec/avm.py TEAL line grammar (used to normalise)")
     report.assume("per-construct part is proved on opaque children (fragcheck); text-level injection (label comments, comment ops) is checked on generated programs with adversarial texts (bounded stand-in)")
     run_fragcheck(report, "O18.frag", classes={"Comment", "Nonce", "Pragma", "Assert"}, tier=tier)
     n = 80 if tier == "quick" else 900
-    jobs = [(seed * 7919 + 100 + i, [4, 5, 6, 7, 8, 9, 10][i % 7]) for i in range(n)]
+    jobs = [(seed * 7919 + 100 + i, [2, 3, 4, 5, 6, 7, 8, 9, 10][i % 9]) for i in range(n)]
     with ProcessPoolExecutor(max_workers=16) as ex:
         res = list(ex.map(case, jobs, chunksize=4))
     bad = [r for r in res if r["problems"]]
@@ -136,12 +194,23 @@ def run(report: Report, tier, seed):
     report.bounded.append(Bounded(function="compileTeal with / without annotations", contract="instruction streams identical apart from comment lines and label spellings",
                                   bound=f"{n} generated programs (seed {seed}) annotated at random statement positions with adversarial texts (line breaks, //, ;, quotes, label look-alikes) incl. subroutine names",
                                   cases=sum(r["ran"] for r in res), distinct_nontrivial=len({r['seed'] for r in res if r['ran']}), failures=len(bad) + len(known)))
+    pj = [(k, t, v) for k in PROBE_KINDS for t in NASTY for v in range(2, 11)]
+    with ProcessPoolExecutor(max_workers=16) as ex:
+        pr = list(ex.map(probe, pj, chunksize=16))
+    pbad = [r for r in pr if r["problem"]]
+    report.bounded.append(Bounded(function="one annotation construct in a fixed small program", contract="instruction stream identical to the unannotated program (or the text is rejected)",
+                                  bound=f"{len(PROBE_KINDS)} constructs (Comment, nested Comment, Assert comment with 1 / 2 conditions, subroutine name) x {len(NASTY)} adversarial texts x versions 2..10",
+                                  cases=sum(r["ran"] for r in pr), distinct_nontrivial=len(pj), failures=len(pbad)))
     if known:
         k = known[0]
         report.violation(Violation(key="comment-blocks-slot-optimisation", what="with the slot optimiser on, " + k["known_optimizer"],
                                    replay={"input": {"seed": k["seed"], "version": k["version"]}, "names": k.get("names")}, confirmed_native=True))
     report.extra["explanation"] = "P: annotation constructs via fragcheck; B: text-level invariance on generated programs"
-    report.settle_refuted(None)
+    report.settle_refuted(lambda fn, obs: ({"input": {"probe": pbad[0]["job"]}, "what": pbad[0]["problem"]} if pbad else None))
+    if pbad and not any(o.status == "refuted" for o in report.obs):
+        b = pbad[0]
+        report.violation(Violation(key=f"probe:{b['job'][0]}:{b['job'][2]}", what=f"annotation probe {b['job']}: {b['problem']}"[:400],
+                                   replay={"input": {"probe": b["job"]}, "teal": b.get("teal")}, confirmed_native=True))
     seen = set()
     for b in bad:
         names = b.get("names") or {}
@@ -154,9 +223,14 @@ def run(report: Report, tier, seed):
 
 
 def replay(data):
-    inp = (data.get("replay") or {}).get("input")
+    r = data.get("replay") or {}
+    inp = (r.get("native") or {}).get("input") or r.get("input")
     if not inp:
         return 1
+    if "probe" in inp:
+        out = probe(tuple(inp["probe"]))
+        print(out["problem"])
+        return 1 if out["problem"] else 0
     out = case((inp["seed"], inp["version"]))
     print(out["problems"])
     return 1 if out["problems"] else 0
